@@ -5,6 +5,8 @@ import (
 	"strconv"
 	"sync"
 	"sync/atomic"
+
+	"github.com/form3tech-oss/f1/v2/internal/verifhook"
 )
 
 func newContinuousPool(m *PoolManager, numWorkers int) *ContinuousPool {
@@ -40,6 +42,7 @@ func (p *ContinuousPool) Start(ctx context.Context) {
 	// context on each iteration
 	go func() {
 		<-workerCtx.Done()
+		verifhook.Yield("cp.stopper.woken", p, 0)
 		p.stopWorkers.Store(true)
 	}()
 }
@@ -58,9 +61,12 @@ func (p *ContinuousPool) startWorker(
 	// concurrency requested
 	workersStarted.Done()
 	workersStarted.Wait()
+	defer verifhook.Yield("cp.w.exit", p, 0)
+	verifhook.Yield("cp.w.started", p, 0)
 
 	// use and atomic.Bool to control execution to avoid mutex usage in channels and context.Context
 	for !p.stopWorkers.Load() {
+		verifhook.Yield("cp.w.loop", p, 0)
 		iteration, err := p.manager.NextIteration()
 		if err != nil {
 			p.maxIterationsReached()
